@@ -257,6 +257,13 @@ def run_one(tools, base, sc, ref_cache):
                            stderr=subprocess.STDOUT, text=True, timeout=300)
         obs["dest_build"] = (b.returncode == 0)
         obs["dest_build_err"] = b.stdout[-600:]
+    # the same source package, arguments and flags from another working directory and under the
+    # environment `go generate` sets: the output is a function of package and options only (C14)
+    if rc == 0 and not sc.out and not sc.pkg and sc.fault is None and ref[0] == 0:
+        env2 = dict(run_env or C.goenv(), GOPACKAGE="tools", GOFILE="gen.go", GOLINE="3", GOARCH="amd64", GOOS="linux")
+        rc3, so3, se3 = moq(base_flags + ["store"] + sc.args, cwd=root, env=env2)
+        obs["cwd_same"] = (rc3 == 0 and so3 == ref[1])
+        obs["cwd_diff"] = "" if obs["cwd_same"] else (se3[:200] or so3[:400])
     # a second run in place: regeneration over moq's own output (C15)
     if rc == 0 and outabs and sc.fault is None:
         rc2, so2, se2 = moq(args)
